@@ -76,7 +76,8 @@ fn eval(name: &str, a: &[Value]) -> Value {
             let lines: Vec<String> = a[0].as_array().unwrap().iter().map(str_arg).collect();
             let langs: Vec<String> = a[1].as_array().unwrap().iter().map(str_arg).collect();
             let langs: Vec<&str> = langs.iter().map(|s| s.as_str()).collect();
-            let text = lines.join("\n");
+            // every line is newline-terminated, so that `str::lines` yields exactly `lines` (also a final empty one)
+            let text = lines.iter().map(|l| format!("{}\n", l)).collect::<String>();
             let toks = scrut::parsers::markdown::verif_hooks::tokenize(&text, &langs);
             let mut accounted = 0usize;
             let mut consistent = true;
